@@ -359,11 +359,11 @@ def _place_faults_c15(r, steps, cfg):
             return
         s = r.choice(free)
         if s["op"] in ("sc.dump", "sc.load") and r.random() < 0.25:
-            s["fault"] = {"kind": "seam-raise", "at": 0, "exc": r.choice(["interrupt", "key", "type", "os", "memory"])}
+            s["fault"] = {"kind": "seam-raise", "at": 0, "exc": r.choice(["interrupt", "memory", "callback"])}
             continue
         from .gen_c20 import interrupt_k
         s["fault"] = {"kind": "interrupt", "k": interrupt_k(r, s) if r.random() < 0.7 else int(round(2 ** r.uniform(0, 13))),
-                      "exc": r.choice(["interrupt", "interrupt", "interrupt", "memory", "key", "type", "os"])}
+                      "exc": r.choice(["interrupt", "interrupt", "memory"])}
 
 
 def _script(r, client, world, counter):
